@@ -287,12 +287,7 @@ func (s *Stream) Close() error {
 // close the stream. after close stream, any operation will return ErrStreamClosed.
 // unread data will be drained and released.
 func (s *Stream) close() error {
-	oldState := s.getStreamState()
-	if oldState == uint32(streamClosed) {
-		return nil
-	}
-
-	if atomic.CompareAndSwapUint32(&s.state, oldState, uint32(streamClosed)) {
+	if oldState, won := s.casToClosed(); won {
 		if s.getCallbacks() != nil {
 			s.asyncGoroutineWg.Wait()
 		}
@@ -327,6 +322,21 @@ func (s *Stream) close() error {
 		}
 	}
 	return nil
+}
+
+// casToClosed moves the state to closed. It reports the state it replaced and whether this call made the
+// transition. The state may change between the load and the CAS (e.g. the peer's close notification
+// half-closes the stream): then it looks again, a lost CAS must not leave the stream un-closed.
+func (s *Stream) casToClosed() (oldState uint32, won bool) {
+	for {
+		oldState = s.getStreamState()
+		if oldState == uint32(streamClosed) {
+			return oldState, false
+		}
+		if atomic.CompareAndSwapUint32(&s.state, oldState, uint32(streamClosed)) {
+			return oldState, true
+		}
+	}
 }
 
 func (s *Stream) clean() {
